@@ -282,10 +282,22 @@ impl<'a> Gen<'a> {
                     };
                     items.push((name, v, self.t.chance(1, 3)));
                 }
-                // keep values strictly increasing
+                // keep values increasing; now and then two items of one list share a value
+                // (legal Ink: the item a number stands for is then a matter of a fixed rule,
+                // never of hash order)
+                let dup = self.t.chance(1, 6);
                 for j in 1..items.len() {
                     if items[j].1 <= items[j - 1].1 {
                         items[j].1 = items[j - 1].1 + 1;
+                    }
+                }
+                if dup && items.len() >= 2 {
+                    let j = 1 + self.t.pick(items.len() - 1);
+                    items[j].1 = items[j - 1].1;
+                    for k in j + 1..items.len() {
+                        if items[k].1 <= items[k - 1].1 {
+                            items[k].1 = items[k - 1].1 + 1;
+                        }
                     }
                 }
                 self.lists.push(ListDecl {
